@@ -630,6 +630,17 @@ def _via_own_helper(repo, ci, a, inst, owner):
     return ok
 
 
+def _no_descriptor_evidence(atom, pol, o):
+    """a guard saying that type(obj) has no __get__: getattr(type(obj), '__get__', None) is None / not hasattr(type(obj), '__get__')"""
+    t = atom[1] if len(atom) > 1 and isinstance(atom[1], tuple) else None
+    if t is None or not (t[0] == 'C' and t[1] in ('getattr', 'hasattr') and len(t[2]) >= 2 and t[2][0] == ('C', 'type', (o,), ())
+                         and t[2][1] == K('__get__')):
+        return False
+    if t[1] == 'getattr':
+        return atom[0] == 'isnone' and pol and len(t[2]) == 3 and t[2][2] == NONE
+    return atom[0] == 'truthy' and not pol
+
+
 def rule_descriptor_rebinding(check, rule, classes=None, only_safe_get=False):
     """C13.R2: __get__ rebuilds an instance of the same type from the same stored parts and the re-bound wrapped object"""
     repo = check.repo
@@ -695,17 +706,28 @@ def rule_descriptor_rebinding(check, rule, classes=None, only_safe_get=False):
     paths = it.run(sg)
     o, i, w = [('P', x) for x in sg.params()[0]]
     ok_bind = ok_plain = False
+    other = []
     for p in paths:
         if p.status == 'return':
             v = p.value
-            if v == o and any(a[0] == 'raises' for a, pol in p.lits):
+            if v == o and any((a[0] == 'raises' and pol) or _no_descriptor_evidence(a, pol, o) for a, pol in p.lits):
                 ok_plain = True
-            if v[0] == 'C' and v[2] == (o, i, w) and mentions(v[1], ('C', 'type', (o,), ())):
+            elif v[0] == 'C' and v[2] == (o, i, w) and mentions(v[1], ('C', 'type', (o,), ())):
                 ok_bind = True
-            if v[0] == 'M' and v[1] == ('C', 'type', (o,), ()) and v[2] == '__get__' and v[3] == (o, i, w):
+            elif v[0] == 'M' and v[1] == ('C', 'type', (o,), ()) and v[2] == '__get__' and v[3] == (o, i, w):
                 ok_bind = True
+            else:
+                other.append(p)
     key = '_util:safe_get|table'
-    if ok_bind and ok_plain:
+    for p in other[:1]:
+        node = [e for e in p.effects if e.kind == 'return'][-1].node
+        check.violation(rule, site_of(sg, node), 'safe_get returns %s when %s: every descriptor must be bound through type(obj).__get__(obj, instance, '
+                        'owner), whatever instance and owner are (a classmethod looked up on the class binds to the owner)'
+                        % (show(p.value)[:40], lits_text(p.lits)[:120] or 'always'), key=key + '|other',
+                        witness='wrapper_decorator over a classmethod: Cls.meth must be bound to Cls')
+    if other:
+        pass
+    elif ok_bind and ok_plain:
         check.holds(rule, site_of(sg, sg.node), 'safe_get: type(obj).__get__(obj, instance, owner), or obj itself when it is no descriptor', key=key)
     else:
         check.violation(rule, site_of(sg, sg.node), 'safe_get no longer binds through type(obj).__get__(obj, instance, owner) / returns obj otherwise', key=key)
